@@ -3,6 +3,7 @@ import PvlModel.Lemmas.SpecCount
 import PvlModel.Lemmas.ParseSpec
 import PvlModel.Lemmas.ParserCount2
 import PvlModel.Lemmas.SaneAll
+import PvlModel.Lemmas.ParserCount3
 import PvlModel.Gen.Tables
 
 /-!
@@ -291,6 +292,68 @@ theorem C05_unbalanced_rejected_all (g : Grammar) (hg : g ∈ [Gen.pvl, Gen.odl,
     ((lexAll g d text).1.filter (fun t => isEt (cfgOf g d kind text) t.text)).length = blocksI m :=
   C05_unbalanced_rejected g d kind text hk (cfgOK_tables g hg)
     (fun t _ => sane_all (cfgOf g d kind text) hd (saneTable_tables g hg) t.text) m h hall
+
+
+
+/-- the parser configuration of a `parse()` call of any parser class (the default loader's class removes
+    dash-continuations from the text first) -/
+def cfgOfAny (g : Grammar) (d : Dec) (kind : ParserKind) (s : Str) : PCfg :=
+  ⟨g, d, kind, docOf kind s, (lexAll g d (docOf kind s)).2⟩
+
+/-- `(` is not a parameter name with any of the generated tables -/
+theorem paren_not_name : ∀ g ∈ [Gen.pvl, Gen.odl, Gen.pds, Gen.isis, Gen.omni], ∀ k ∈ [DecKind.pvl, .odl, .pds, .omni],
+    Tok.isParameterName ⟨g, k⟩ [40] = false := by
+  decide +kernel
+
+/-- **C05, block keywords are accounted for by every loader — for every text**: also the default loader
+    (`OmniParser`, whose module post-hook rewrites the last item of the container under construction and repairs
+    missing values).  Whenever `parse()` returns a module, the begin keywords among the tokens it consumed, and
+    the end keywords among them, are each exactly as many as the blocks in the module.  The value the hook
+    re-reads as a parameter name is never a block (`reread_not_block`): `_simple_value` is reset when a block is
+    completed, productions that fail softly leave it alone, and `(` — what a block looks like to `Token` — is not
+    a name. -/
+theorem C05_blocks_accounted_any (g : Grammar) (hg : g ∈ [Gen.pvl, Gen.odl, Gen.pds, Gen.isis, Gen.omni])
+    (dk : DecKind) (kind : ParserKind) (text : Str) (m : Items)
+    (h : (parseRun g ⟨g, dk⟩ kind text).1 = .ok m) :
+    cntG (isBt (cfgOfAny g ⟨g, dk⟩ kind text)) (parseRun g ⟨g, dk⟩ kind text).2.gen + blocksI m =
+      ((lexAll g ⟨g, dk⟩ (docOf kind text)).1.filter (fun t => isBt (cfgOfAny g ⟨g, dk⟩ kind text) t.text)).length ∧
+    cntG (isEt (cfgOfAny g ⟨g, dk⟩ kind text)) (parseRun g ⟨g, dk⟩ kind text).2.gen + blocksI m =
+      ((lexAll g ⟨g, dk⟩ (docOf kind text)).1.filter (fun t => isEt (cfgOfAny g ⟨g, dk⟩ kind text) t.text)).length := by
+  have hp40 : Tok.isParameterName (cfgOfAny g ⟨g, dk⟩ kind text).d [40] = false := by
+    have hk : dk ∈ [DecKind.pvl, .odl, .pds, .omni] := by cases dk <;> simp
+    exact paren_not_name g hg dk hk
+  obtain ⟨hc, hcls⟩ := cfgOK_of_table (cfgOfAny g ⟨g, dk⟩ kind text) (cfgOK_tables g hg)
+  have hs : ∀ t ∈ (lexAll g ⟨g, dk⟩ (docOf kind text)).1, Sane (cfgOfAny g ⟨g, dk⟩ kind text) t.text :=
+    fun t _ => sane_all (cfgOfAny g ⟨g, dk⟩ kind text) rfl (saneTable_tables g hg) t.text
+  revert h hc hcls hs hp40
+  unfold parseRun cfgOfAny docOf
+  simp only
+  generalize (if kind == ParserKind.omni then omniPrepass text else text) = doc
+  generalize lexAll g ⟨g, dk⟩ doc = lx
+  obtain ⟨toks, tail⟩ := lx
+  simp only
+  intro h hp40 hc hcls hs
+  have hs0 := triple_elim _ _ _ _
+    (moduleLoop_om ⟨g, ⟨g, dk⟩, kind, doc, tail⟩ hc hp40 hcls (fuelFor (toks.length + 2)) []
+      (K ⟨g, ⟨g, dk⟩, kind, doc, tail⟩ ⟨⟨toks, none, none, false⟩, [], [], none, false⟩))
+    ⟨⟨toks, none, none, false⟩, [], [], none, false⟩
+    (by
+      refine ⟨by simp [P.Inv], ?_, Or.inl rfl⟩
+      simp only [Same, K, TS]
+      exact ⟨trivial, trivial, hs, by simp⟩)
+  revert hs0 h
+  generalize (moduleLoop ⟨g, ⟨g, dk⟩, kind, doc, tail⟩ [] (fuelFor (toks.length + 2))).run.run
+    ⟨⟨toks, none, none, false⟩, [], [], none, false⟩ = res
+  obtain ⟨r, st'⟩ := res
+  intro h hs0
+  have h' : r = .ok m := h
+  subst h'
+  obtain ⟨⟨h1, h2, _⟩, _⟩ := hs0
+  simp only [K, Bc, Ec, cntG, blocksI_nil, Nat.add_zero] at h1 h2
+  simp only [Bc, Ec] at h1 h2 ⊢
+  constructor
+  · simpa [cntG] using h1
+  · simpa [cntG] using h2
 
 
 end Pvl
